@@ -175,6 +175,7 @@ func init() {
 		"github.com/opencontainers/go-digest.Digester.Digest":        effDigesterDigest,
 		"(github.com/opencontainers/go-digest.Algorithm).Digester":   effNewDigester,
 		"os.Chtimes": effChtimes,
+		"os.WriteFile": effWriteFile,
 		// paths (C16)
 		"path/filepath.Join": effPathJoin,
 		"os.CreateTemp":      effCreateTemp,
@@ -557,6 +558,9 @@ func effJSONEncode(fe *FnEnc, st *State, callee *ssa.Function, args []RV, pos to
 	k := ifVal(w)
 	cur := tSel(sh, k)
 	fe.setComp(st, respStatus, ssrt, tStore(sh, k, tIte(tEq(cur, tInt(0)), tInt(200), cur)))
+	// ghost: the object the last Encode wrote into (C09/C10: the file that is renamed over index.json is the file
+	// that was encoded into, not a buffer in front of it)
+	fe.setComp(st, "lastEncodeTarget", sInt, k)
 	return nil
 }
 
@@ -942,4 +946,20 @@ func effFromBytes(fe *FnEnc, st *State, callee *ssa.Function, args []RV, pos tok
 	fe.emit("(assert (digestOK " + d.S + "))")
 	fe.emit("(assert (not (digestOK str.empty)))")
 	return one(d)
+}
+
+
+// os.WriteFile(path, data, perm): on success the file at path has been written once more (ghost counter WROTE per path)
+func effWriteFile(fe *FnEnc, st *State, callee *ssa.Function, args []RV, pos token.Pos) []RV {
+	srt := arrSort(sStr, sInt)
+	h := fe.getComp(st, "WROTE", srt)
+	if fe.dry {
+		fe.setComp(st, "WROTE", srt, h)
+		return one(nilIface)
+	}
+	err := fe.fresh("writefile.err", sIface)
+	fe.emit("(assert (=> (= (i_typ " + err.S + ") 0) (= (i_val " + err.S + ") 0)))")
+	p := fe.val(args[0])
+	fe.setComp(st, "WROTE", srt, tIte(tEq(err, nilIface), tStore(h, p, tArith("+", tSel(h, p), tInt(1))), h))
+	return one(err)
 }
